@@ -135,6 +135,20 @@ func gen(r *hx.Rand, n int, tier string, emit func(string), st *hx.Stats) {
 				ops = append(ops, fmt.Sprintf("wt %d %s %s %s %s", s, t.o, t.r, t.u, cond))
 			case p < 13:
 				ops = append(ops, fmt.Sprintf("dt %d %s %s %s", s, t.o, t.r, t.u))
+			case p < 16:
+				// the SAME cacheable question put to every store in a row: a cache entry of one store must not answer another
+				o := hx.Pick(c, []string{"doc:1", "doc:2", "doc:3"})
+				rel := hx.Pick(c, relsByType["doc"])
+				u := hx.Pick(c, []string{"user:x", "user:y", "user:z"})
+				perm := []int{0, 1, 2}
+				hx.Shuffle(c, perm)
+				for _, s2 := range perm {
+					if c.Bool() {
+						ops = append(ops, fmt.Sprintf("ck %d %s %s %s 0", s2, o, rel, u))
+					} else {
+						ops = append(ops, fmt.Sprintf("lo %d doc %s %s", s2, rel, u))
+					}
+				}
 			case p < 21:
 				o := hx.Pick(c, objs)
 				ops = append(ops, fmt.Sprintf("ck %d %s %s %s %d", s, o, hx.Pick(c, relsByType[fga.TypeOf(o)]), hx.Pick(c, []string{"user:x", "user:y", "user:z", "group:a#member"}), c.Intn(2)))
